@@ -71,6 +71,22 @@ CLAIMED["C19"] = ("iteration-order insensitivity: effect classification of every
  "Complete (modulo the reasoned table) static decision that map iteration order cannot reach the output of the generator or of the runtime (finding F6 repaired).",
  "Not decided: determinism of golang.org/x/tools/imports.",
  "DESIGN.md §3 C19")
+CLAIMED["C03"] = ("structural rules on the syntax tree of the generated front-end pigeon.go and on ast.CharClassMatcher.parse",
+ "Narrow claim: three structural necessary conditions of 'the front-end builds the denoted AST' — node constructors positioned by the start of the match, the rule-reference chain realises the documented binding strength, operator/escape tables agree between grammar and decoder.",
+ "Not decided (behavioural, no printer in the repository): acceptance of all layouts, comments/terminators, decoded escape values, print/re-parse round trip.",
+ "DESIGN.md §3 C03")
+CLAIMED["C10"] = ("partial evaluation of the standard template variant + syntactic (token) equality with the optimized variant for all 8 parameter settings; who-may-read rule for the builder flag",
+ "Complete static argument: the optimized runtime is, declaration by declaration, the standard runtime specialised to the default runtime options with provably non-interfering slices removed; the flag influences nothing else. Holds for every grammar and input modulo the soundness of the folding rules.",
+ "Relies on C05, C06-a/c/w (their own checks). Trusted: the five folding rules, go/parser, go/printer.",
+ "DESIGN.md §3 C10")
+CLAIMED["C15"] = ("sibling agreement between the general class matcher and BasicLatinLookup (uniform case folding); fast-path wiring in the 8 table variants; table emission in the builder",
+ "Narrow claim: one structural necessary condition of table ≡ general path (case folding handled for all three member sources; finding F7 repaired) plus the wiring of the fast path and of the table emission.",
+ "Not decided: equality of the two procedures over all classes × 128 runes (observation O2: [Z-a]i differs; no sound general rule in this technique family).",
+ "DESIGN.md §3 C15")
+CLAIMED["C20"] = ("artifact consistency by static comparison (string tables vs template source, gofmt-normalised static tail of all 47 generated parsers vs the variant for the Makefile flags, recipe coverage, position anchors vs .peg bytes)",
+ "Decides the artifact half: what regeneration would establish — no checked-in generated file is stale with respect to the template, its recipe's flags, or its grammar's node positions.",
+ "Not decided: AST equality of the hand-written bootstrap front-end and the generated one over all inputs; byte identity of a real regeneration (imports.Process formatting).",
+ "DESIGN.md §3 C20")
 NA_REASON = {}
 DEFAULT_NA = "no check registered in this revision of the framework (see DESIGN.md for the planned static rules)"
 
